@@ -568,3 +568,23 @@ Definition lstep (guarded : bool) (t : lpc) (s : lsh) : lpc * lsh :=
   | LDone | LReported | LTimerFired | LBackendUp => (t, s)
   end.
 Definition linit : lsh := {| l_backend := false; l_reported := false; l_timer := false |}.
+
+(* ------------------------------------------------------------------------------------------------ *)
+(* M. the close latch of dispose.Dispose in isolation                                                *)
+(* ------------------------------------------------------------------------------------------------ *)
+(* dispose.go Close.  `atomic = true` (the repository, as in section A): currentLock.Lock(); if closed return; closed = true;
+   ... — test and set are one critical section.  `atomic = false`: if IsClosed() return (IsClosed takes and releases the
+   lock); Lock(); closed = true; run the handlers — check-then-act. *)
+Record msh := { m_closed : bool; m_lock : bool; m_runs : nat }.
+Inductive mpc := MCheck | MLock | MRun | MUnlock | MDone.
+Definition mstep (atomic : bool) (t : mpc) (s : msh) : mpc * msh :=
+  match t with
+  | MCheck => if m_lock s then (t, s)
+              else if m_closed s then (MDone, s)
+              else if atomic then (MRun, {| m_closed := true; m_lock := true; m_runs := m_runs s |}) else (MLock, s)
+  | MLock => if m_lock s then (t, s) else (MRun, {| m_closed := true; m_lock := true; m_runs := m_runs s |})
+  | MRun => (MUnlock, {| m_closed := m_closed s; m_lock := m_lock s; m_runs := S (m_runs s) |})
+  | MUnlock => (MDone, {| m_closed := m_closed s; m_lock := false; m_runs := m_runs s |})
+  | MDone => (t, s)
+  end.
+Definition minit : msh := {| m_closed := false; m_lock := false; m_runs := 0 |}.
